@@ -618,9 +618,113 @@ Section P.
     rewrite IH. destruct (lastget kvs k); [reflexivity|]. rewrite get_set. destruct (N.eqb a k); reflexivity.
   Qed.
 
-  (* which Replace operations the pinned code handles: no key produced twice *)
-  Definition op_ok (fixed : bool) (o : op V) : Prop :=
-    match o with Replace kvs _ => fixed = true \/ NoDup (keys kvs) | _ => True end.
+  (* ---------------- IterBatched ---------------- *)
+  Lemma NoDup_visit_order order (m : amap V) : NoDup (keys m) -> NoDup (visit_order V order m).
+  Proof.
+    intros ND. unfold Model.visit_order.
+    assert (G : forall (l1 l2 : list N), NoDup l1 -> NoDup l2 -> (forall x, In x l1 -> ~ In x l2) -> NoDup (l1 ++ l2)).
+    { induction l1 as [|x l1 IH]; cbn; intros l2 H1 H2 D; [assumption|]. inversion H1; subst. constructor.
+      - rewrite in_app_iff. intros [?|?]; [tauto|]. apply (D x); auto.
+      - apply IH; auto. }
+    apply G.
+    - apply NoDup_nodup.
+    - apply NoDup_filter, ND.
+    - intros x H1 H2. apply nodup_In, filter_In in H1. destruct H1 as [H1 _].
+      apply filter_In in H2. destruct H2 as [_ H2]. apply negb_true_iff in H2.
+      assert (existsb (N.eqb x) order = true) by (apply existsb_exists; exists x; split; [assumption|apply N.eqb_refl]). congruence.
+  Qed.
+
+  Lemma range_of_props order (m : amap V) : NoDup (keys m) ->
+    NoDup (keys (range_of V order m)) /\ (forall kv, In kv (range_of V order m) -> get m (fst kv) = Some (snd kv)).
+  Proof.
+    intros ND. unfold Model.range_of. pose proof (NoDup_visit_order order m ND) as NV.
+    induction (visit_order V order m) as [|k l IH]; cbn [flat_map]; [split; [constructor|intros ? []]|].
+    inversion NV; subst. destruct (IH H2) as (I1 & I2).
+    destruct (get m k) as [v|] eqn:E; cbn [app]; [|auto]. split.
+    - cbn [keys map fst]. constructor; [|exact I1]. intros Hin. apply H1.
+      clear - Hin. induction l as [|a l IH]; cbn [flat_map] in Hin; [destruct Hin|].
+      unfold keys in Hin. rewrite map_app in Hin. apply in_app_or in Hin. destruct Hin as [Hin|Hin]; [|right; auto].
+      destruct (get m a); cbn in Hin; [destruct Hin as [<-|[]]; left; reflexivity|destruct Hin].
+    - intros kv [<-|Hin]; [exact E|auto].
+  Qed.
+
+  Lemma fold_pu_apply l : forall s, NoDup (keys l) -> (forall kv, In kv l -> get (DU s) (fst kv) = Some (snd kv)) ->
+    fold_left (pu_apply V) l s = pu_iter V (map (fun kv => (fst kv, AUpd)) l) s.
+  Proof.
+    induction l as [|[k v] l IH]; intros s ND H; [reflexivity|].
+    cbn [fold_left map fst]. unfold Model.pu_iter. cbn [fold_left].
+    pose proof (H (k, v) (or_introl eq_refl)) as Hk. cbn [fst snd] in Hk.
+    assert (E : pu_apply V s (k, v) = pu_visit V s (k, AUpd)).
+    { unfold Model.pu_apply, Model.pu_visit. cbn [fst snd]. rewrite Hk. reflexivity. }
+    rewrite E. cbn [keys map fst] in ND. inversion ND; subst. apply IH; [assumption|].
+    intros [k' v'] Hin. cbn [fst snd]. unfold Model.pu_visit. rewrite Hk. cbn [fst snd DU].
+    rewrite get_del. destruct (N.eqb_spec k k') as [->|].
+    - exfalso. apply H2. change k' with (fst (k', v')). apply in_map, Hin.
+    - apply (H (k', v')). right. exact Hin.
+  Qed.
+  Lemma fold_pd_apply l : forall s, NoDup (keys l) -> (forall kv, In kv l -> get (ND s) (fst kv) = Some (snd kv)) ->
+    fold_left (pd_apply V) l s = pd_iter V (map (fun kv => (fst kv, AUpd)) l) s.
+  Proof.
+    induction l as [|[k v] l IH]; intros s HND H; [reflexivity|].
+    cbn [fold_left map fst]. unfold Model.pd_iter. cbn [fold_left].
+    pose proof (H (k, v) (or_introl eq_refl)) as Hk. cbn [fst snd] in Hk.
+    assert (E : pd_apply V s (k, v) = pd_visit V s (k, AUpd)).
+    { unfold Model.pd_apply, Model.pd_visit. cbn [fst snd]. rewrite Hk. reflexivity. }
+    rewrite E. cbn [keys map fst] in HND. inversion HND; subst. apply IH; [assumption|].
+    intros [k' v'] Hin. cbn [fst snd]. unfold Model.pd_visit. rewrite Hk. cbn [fst snd ND].
+    rewrite get_del. destruct (N.eqb_spec k k') as [->|].
+    - exfalso. apply H2. change k' with (fst (k', v')). apply in_map, Hin.
+    - apply (H (k', v')). right. exact Hin.
+  Qed.
+
+  (* the batched iteration is an ordinary iteration answering UpdateDataplane for the applied items *)
+  Lemma pu_batched_is_iter bs order resps s : Inv s ->
+    fst (pu_iter_batched V bs order resps s) =
+    pu_iter V (map (fun kv => (fst kv, AUpd)) (applied_of (snd (pu_iter_batched V bs order resps s)))) s.
+  Proof.
+    intros I. unfold Model.pu_iter_batched. cbn [fst snd].
+    destruct (range_of_props order (DU s) (inv_du s I)) as (R1 & R2).
+    destruct (proto_applied_keys bs (range_of V order (DU s)) resps R1) as (P1 & P2).
+    apply fold_pu_apply; [exact P1|]. intros kv H. apply R2, P2, H.
+  Qed.
+  Lemma pd_batched_is_iter bs order resps s : Inv s ->
+    fst (pd_iter_batched V bs order resps s) =
+    pd_iter V (map (fun kv => (fst kv, AUpd)) (applied_of (snd (pd_iter_batched V bs order resps s)))) s.
+  Proof.
+    intros I. unfold Model.pd_iter_batched. cbn [fst snd].
+    destruct (range_of_props order (ND s) (inv_nd s I)) as (R1 & R2).
+    destruct (proto_applied_keys bs (range_of V order (ND s)) resps R1) as (P1 & P2).
+    apply fold_pd_apply; [exact P1|]. intros kv H. apply R2, P2, H.
+  Qed.
+
+  Lemma des_set_R k v s DP : Inv s -> R s DP -> R (des_set V veq k v s) (set k v (fst DP), snd DP).
+  Proof.
+    intros I [Rd Rp]. split; cbn [fst snd]; intros k'.
+    - rewrite des_set_get by assumption. gs. destruct (N.eqb k k'); [|apply Rd].
+      destruct (dp_get s k) as [cur|]; [destruct (veq cur v) eqn:E|]; cbn; auto.
+    - rewrite des_set_dp by assumption. apply Rp.
+  Qed.
+  Lemma des_set_many kvs : forall s DP, Inv s -> R s DP ->
+    Inv (fold_left (fun s kv => des_set V veq (fst kv) (snd kv) s) kvs s) /\
+    R (fold_left (fun s kv => des_set V veq (fst kv) (snd kv) s) kvs s) (of_list V kvs (fst DP), snd DP).
+  Proof.
+    unfold of_list. induction kvs as [|[k v] kvs IH]; intros s [D P] I HR; cbn [fold_left fst snd]; [auto|].
+    apply (IH _ (set k v D, P)); [apply des_set_inv, I|apply (des_set_R k v s (D, P) I HR)].
+  Qed.
+
+  (* which operations the theorems cover: for the pinned code no Replace iterator yields a key twice;
+     for IterBatched the recorded calls are the calls the code makes (same items applied) *)
+  Definition op_ok (fixed : bool) (s : st) (o : op V) : Prop :=
+    match o with
+    | Replace kvs _ => fixed = true \/ NoDup (keys kvs)
+    | IterBatchUpd calls | IterBatchDel calls => keys (applied_of (step_calls V s o)) = keys (applied_of calls)
+    | _ => True
+    end.
+  Fixpoint ops_ok (fixed : bool) (s : st) (ops : list (op V)) : Prop :=
+    match ops with
+    | [] => True
+    | o :: ops' => op_ok fixed s o /\ ops_ok fixed (step V veq fixed s o) ops'
+    end.
 
   Lemma dp_replace_any fixed kvs err s : fixed = true \/ NoDup (keys kvs) ->
     dp_replace V veq fixed kvs err s = dp_replace V veq true kvs err s.
@@ -659,7 +763,7 @@ Section P.
     forall s DP, Inv s -> R s DP -> R (fold_left f tr s) (fold_left g tr DP).
   Proof. intros Hi Hr. induction tr; cbn [fold_left]; auto. Qed.
 
-  Lemma step_inv fixed s o : op_ok fixed o -> Inv s -> Inv (step V veq fixed s o).
+  Lemma step_inv fixed s o : op_ok fixed s o -> Inv s -> Inv (step V veq fixed s o).
   Proof.
     intros Ho I. destruct o; cbn [step].
     - apply des_set_inv, I.
@@ -671,9 +775,12 @@ Section P.
     - rewrite dp_replace_any by exact Ho. apply (dp_replace_fixed kvs err s I).
     - apply (fold_inv (pu_visit V)); auto using pu_visit_inv.
     - apply (fold_inv (pd_visit V)); auto using pd_visit_inv.
+    - rewrite pu_batched_is_iter by assumption. apply (fold_inv (pu_visit V)); auto using pu_visit_inv.
+    - rewrite pd_batched_is_iter by assumption. apply (fold_inv (pd_visit V)); auto using pd_visit_inv.
+    - apply (fold_inv (fun s kv => des_set V veq (fst kv) (snd kv) s)); auto using des_set_inv.
   Qed.
 
-  Lemma step_R fixed s DP o : op_ok fixed o -> Inv s -> R s DP -> R (step V veq fixed s o) (a_step V veq DP o).
+  Lemma step_R fixed s DP o : op_ok fixed s o -> Inv s -> R s DP -> R (step V veq fixed s o) (a_step V veq DP o).
   Proof.
     intros Ho I [Rd Rp]. destruct DP as [D P]. cbn [fst snd] in *.
     destruct o; cbn [step a_step].
@@ -708,13 +815,24 @@ Section P.
       split; assumption.
     - apply (fold_visit_R (pd_visit V) (a_pd_visit V)); auto using pd_visit_inv, pd_visit_R.
       split; assumption.
+    - assert (M : forall (l : list (N * V)), map (fun kv => (fst kv, AUpd)) l = map (fun k => (k, AUpd)) (keys l))
+        by (intros l; unfold keys; rewrite map_map; reflexivity).
+      rewrite pu_batched_is_iter by assumption. rewrite !M. cbn [op_ok step_calls] in Ho. rewrite Ho.
+      apply (fold_visit_R (pu_visit V) (a_pu_visit V veq)); auto using pu_visit_inv, pu_visit_R.
+      split; assumption.
+    - assert (M : forall (l : list (N * V)), map (fun kv => (fst kv, AUpd)) l = map (fun k => (k, AUpd)) (keys l))
+        by (intros l; unfold keys; rewrite map_map; reflexivity).
+      rewrite pd_batched_is_iter by assumption. rewrite !M. cbn [op_ok step_calls] in Ho. rewrite Ho.
+      apply (fold_visit_R (pd_visit V) (a_pd_visit V)); auto using pd_visit_inv, pd_visit_R.
+      split; assumption.
+    - apply (des_set_many kvs s (D, P) I). split; assumption.
   Qed.
 
-  Lemma run_from fixed ops : Forall (op_ok fixed) ops -> forall s DP, Inv s -> R s DP ->
+  Lemma run_from fixed ops : forall s DP, ops_ok fixed s ops -> Inv s -> R s DP ->
     Inv (fold_left (step V veq fixed) ops s) /\ R (fold_left (step V veq fixed) ops s) (fold_left (a_step V veq) ops DP).
   Proof.
-    induction 1 as [|o ops Ho Hops IH]; intros s DP I HR; cbn [fold_left]; [auto|].
-    apply IH; [apply step_inv|apply step_R]; assumption.
+    induction ops as [|o ops IH]; intros s DP Hok I HR; cbn [fold_left]; [auto|].
+    destruct Hok as [Ho Hops]. apply IH; [assumption|apply step_inv|apply step_R]; assumption.
   Qed.
 
   Lemma R_init : R (st0 V) ([], []).
@@ -723,17 +841,17 @@ Section P.
   (* ================= main results ================= *)
   Definition views_of (s : st) : views V := Views (des_get s) (dp_get s) (pu_get V s) (pd_get V s).
 
-  Theorem views_exact_run fixed ops : Forall (op_ok fixed) ops ->
+  Theorem views_exact_run fixed ops : ops_ok fixed (st0 V) ops ->
     let s := run V veq fixed ops in
     views_exact V veq (views_of s) (fst (a_run V veq ops)) (snd (a_run V veq ops)).
   Proof.
-    intros Hok. destruct (run_from fixed ops Hok (st0 V) ([], []) Inv_st0 R_init) as (I & Rd & Rp).
+    intros Hok. destruct (run_from fixed ops (st0 V) ([], []) Hok Inv_st0 R_init) as (I & Rd & Rp).
     cbn zeta. unfold views_exact, views_of. cbn [v_des v_dp v_pu v_pd].
     repeat split; intros k; [apply Rd|apply Rp|apply inv_pu, I|apply inv_pd, I].
   Qed.
 
-  Theorem inv_run fixed ops : Forall (op_ok fixed) ops -> Inv (run V veq fixed ops).
-  Proof. intros Hok. apply (run_from fixed ops Hok (st0 V) ([], []) Inv_st0 R_init). Qed.
+  Theorem inv_run fixed ops : ops_ok fixed (st0 V) ops -> Inv (run V veq fixed ops).
+  Proof. intros Hok. apply (run_from fixed ops (st0 V) ([], []) Hok Inv_st0 R_init). Qed.
 
   (* the Len()s count the keys of the views; the iterated views list every key once and agree with Get *)
   Theorem lens_exact s : Inv s ->
@@ -774,11 +892,11 @@ Section P.
            destruct (snd ka); cbn [fst snd]; auto; destruct (_ : option V); cbn [fst snd]; auto using NoDup_set, NoDup_del).
   Qed.
 
-  Theorem lens_abstract fixed ops : Forall (op_ok fixed) ops ->
+  Theorem lens_abstract fixed ops : ops_ok fixed (st0 V) ops ->
     let s := run V veq fixed ops in
     des_len V s = len (fst (a_run V veq ops)) /\ dp_len V s = len (snd (a_run V veq ops)).
   Proof.
-    intros Hok. destruct (run_from fixed ops Hok (st0 V) ([], []) Inv_st0 R_init) as (I & Rd & Rp).
+    intros Hok. destruct (run_from fixed ops (st0 V) ([], []) Hok Inv_st0 R_init) as (I & Rd & Rp).
     destruct (a_nodup ops ([], [])) as (ND & NP); try apply NoDup_nil.
     destruct (lens_exact _ I) as ((L1 & N1 & G1) & (L2 & N2 & G2) & _).
     cbn zeta. fold (run V veq fixed ops) in *. fold (a_run V veq ops) in *.
@@ -804,7 +922,7 @@ Section Exact.
   Lemma spec_trans a b c : veq a b = true -> veq b c = true -> veq a c = true.
   Proof. rewrite !veq_spec. congruence. Qed.
 
-  Theorem views_identical_run fixed ops : Forall (op_ok V fixed) ops ->
+  Theorem views_identical_run fixed ops : ops_ok V veq fixed (st0 V) ops ->
     let s := run V veq fixed ops in
     (forall k, des_get V s k = get (fst (a_run V veq ops)) k) /\
     (forall k, dp_get V s k = get (snd (a_run V veq ops)) k) /\
@@ -831,15 +949,20 @@ Section More.
   Hypothesis veq_sym : forall a b, veq a b = veq b a.
   Hypothesis veq_trans : forall a b c, veq a b = true -> veq b c = true -> veq a c = true.
 
-  Lemma all_ok_fixed (ops : list (op V)) : Forall (op_ok V true) ops.
-  Proof. apply Forall_forall. intros o _. destruct o; cbn; auto. Qed.
+  (* operations other than IterBatched need no side condition once ReplaceAllIter is repaired *)
+  Definition op_plain (o : op V) : Prop := match o with IterBatchUpd _ | IterBatchDel _ => False | _ => True end.
+  Lemma plain_ok_fixed (ops : list (op V)) : Forall op_plain ops -> forall s, ops_ok V veq true s ops.
+  Proof.
+    induction 1 as [|o ops Ho _ IH]; intros s; cbn [ops_ok]; [exact I|]. split; [|apply IH].
+    destruct o; cbn in *; auto; contradiction.
+  Qed.
 
-  Theorem views_exact_repaired ops :
+  Theorem views_exact_repaired ops : Forall op_plain ops ->
     views_exact V veq (views_of V (run V veq true ops)) (fst (a_run V veq ops)) (snd (a_run V veq ops)).
-  Proof. apply (views_exact_run V veq veq_refl veq_sym veq_trans true ops (all_ok_fixed ops)). Qed.
+  Proof. intros H. apply (views_exact_run V veq veq_refl veq_sym veq_trans true ops (plain_ok_fixed ops H _)). Qed.
 
   (* internal maps after any run: pairwise disjoint as the struct comment requires *)
-  Theorem internal_disjoint_run fixed ops : Forall (op_ok V fixed) ops ->
+  Theorem internal_disjoint_run fixed ops : ops_ok V veq fixed (st0 V) ops ->
     let s := run V veq fixed ops in
     forall k,
       (get (AD s) k <> None -> get (ND s) k = None) /\
@@ -847,7 +970,7 @@ Section More.
       (forall a d, get (AD s) k = Some a -> get (DU s) k = Some d -> veq a d = false).
   Proof. intros Hok s k. apply (inv_k V veq _ (inv_run V veq veq_refl veq_sym veq_trans fixed ops Hok) k). Qed.
 
-  Theorem lens_run fixed ops : Forall (op_ok V fixed) ops ->
+  Theorem lens_run fixed ops : ops_ok V veq fixed (st0 V) ops ->
     let s := run V veq fixed ops in
     (des_len V s = Z.of_nat (length (des_iter V s)) /\ NoDup (keys (des_iter V s)) /\ forall k, get (des_iter V s) k = des_get V s k) /\
     (dp_len V s = Z.of_nat (length (dp_iter V s)) /\ NoDup (keys (dp_iter V s)) /\ forall k, get (dp_iter V s) k = dp_get V s k) /\
@@ -908,12 +1031,12 @@ Proof. vm_compute. repeat split. Qed.
 Definition ex_ops : list (op N) :=
   [DesSet 1 2; DesSet 2 0; DpSet 2 1; DpSet 3 1; Replace [(3, 0); (2, 1); (4, 2)] true; IterDel [(3, AUpd); (4, ANoOp)];
    IterUpd [(1, 2, AUpd); (2, 0, AStop)]; DesDel 1].
-Example ex_ops_ok : Forall (op_ok N false) ex_ops /\
+Example ex_ops_ok : ops_ok N N.eqb false (st0 N) ex_ops /\
   (let s := run N N.eqb false ex_ops in
    kv_sort (des_iter N s) = [(2, 0)] /\ kv_sort (dp_iter N s) = [(1, 2); (2, 1); (4, 2)] /\
    kv_sort (DU s) = [(2, 0)] /\ kv_sort (ND s) = [(1, 2); (4, 2)]).
 Proof.
   split; [|vm_compute; repeat split].
-  unfold ex_ops. repeat (apply Forall_cons || apply Forall_nil); cbn [op_ok]; try exact I.
+  unfold ex_ops. cbn [ops_ok op_ok]. repeat split.
   right. cbn [keys map fst]. repeat (apply NoDup_cons || apply NoDup_nil); cbn [In]; intuition discriminate.
 Qed.
